@@ -567,6 +567,10 @@ func discharge(m *Machine, h HarnessSpec, rep *HarnessReport, overlay map[string
 					rep.Failures[fi].Replay = "spurious: assumption not satisfied natively"
 				case containsStr(o.Failed, id) || (id == "" && len(o.Failed) > 0):
 					rep.Failures[fi].Replay = "reproduced"
+				case kindOf(rep.Failures[fi].What) == "overflow" && len(o.Failed) > 0:
+					// a machine-integer overflow has no native symptom of its own; the inputs that overflow make an
+					// assertion of the harness fail on the compiled code
+					rep.Failures[fi].Replay = "reproduced (the overflowing input fails natively: " + o.Failed[0] + ")"
 				default:
 					rep.Failures[fi].Replay = "spurious: native run passes"
 				}
